@@ -63,7 +63,9 @@ def check_gate(name, args, inst):
             problems.append(f"matrix: SWAP{args} is not the exchange of the two mode pairs")
         return problems
     nq = 3 if name in ("CCZ", "CCNOT") else 2
-    target = args[0] if args else None
+    target = int(args[0]) if args else None
+    if args and type(args[0]) is not int:
+        circmon.STATS["gate_target_given_as_other_numeric_type"] += 1
     g = qr.multi_qubit(name.replace("_Heralded", ""), target)
     heralded = name.endswith("_Heralded")
     m, leak = qr.subspace_matrix(u, h, n, nq, accept=None if heralded else qr.one_photon_per_qubit(nq))
@@ -178,6 +180,10 @@ def run(ctx):
     jobs += [("CZ", ()), ("CZ_Heralded", ()), ("CCZ", ())]
     jobs += [("CNOT", (t,)) for t in (0, 1)] + [("CNOT_Heralded", (t,)) for t in (0, 1)]
     jobs += [("CCNOT", (t,)) for t in (0, 1, 2)]
+    # the target qubit handed over as other integer-valued types (a loop over numpy.arange, an index read from an array)
+    for ty in (np.int64, np.int32, np.intp, np.uint8, float):
+        jobs += [("CNOT", (ty(t),)) for t in (0, 1)] + [("CNOT_Heralded", (ty(t),)) for t in (0, 1)]
+        jobs += [("CCNOT", (ty(t),)) for t in (0, 1, 2)]
     for a0, a1, b0, b1 in permutations(range(6), 4):
         jobs.append(("SWAP", ((a0, a1), (b0, b1))))
     # SWAP between far-apart qubits in wide registers (the gate spans max(mode)+1 modes, the other modes stay put)
